@@ -54,8 +54,24 @@ impl std::fmt::Display for AssetClass {
     }
 }
 
-#[derive(Serialize, Deserialize, Debug, Clone, PartialEq, Eq)]
+#[derive(Serialize, Deserialize, Debug, Clone)]
 pub struct CanonicalAssets(HashMap<AssetClass, i128>);
+
+// Equality is semantic: an entry with amount zero is the same as no entry at all, no matter which
+// constructor or operator produced the value.
+impl PartialEq for CanonicalAssets {
+    fn eq(&self, other: &Self) -> bool {
+        let non_zero = |x: &Self| x.iter().filter(|(_, amount)| **amount != 0).count();
+
+        non_zero(self) == non_zero(other)
+            && self
+                .iter()
+                .filter(|(_, amount)| **amount != 0)
+                .all(|(class, amount)| other.get(class) == Some(amount))
+    }
+}
+
+impl Eq for CanonicalAssets {}
 
 impl std::fmt::Display for CanonicalAssets {
     fn fmt(&self, f: &mut std::fmt::Formatter<'_>) -> std::fmt::Result {
